@@ -448,6 +448,19 @@ def error_semantics_rule(ck, facts):
             if n2 != op:
                 others |= fn.reachable(tb)
         evs = [(bi, t) for bi, t in evs if bi not in others]
+        if not evs:
+            # the operands may be evaluated through a local helper closure (`let ebv = |operand| operand.eval(..).and_then(..)`):
+            # the calls of that closure stand for the evaluations
+            evaluating = {u.id for b_i in region - others for st in fn.blocks[b_i]["s"]
+                          if st[0] == "=" and st[2][0] == "agg" and st[2][1].get("k") == "closure" and st[2][1].get("def") in facts.fns
+                          for u in [facts.fns[st[2][1]["def"]]]
+                          if any(call_name_matches(t_, r"expression::ArcExpression::eval$") for _, t_ in u.calls())}
+            for bi, t in fn.calls():
+                if bi in region and bi not in others and call_name_matches(t, r"ops::Fn(Mut|Once)?(<.*>)?>?::call(_mut|_once)?$") and t["args"] \
+                        and t["args"][0][0] != "k":
+                    o_ = fn.origin(t["args"][0])
+                    if o_[0] == "agg" and o_[1].get("def") in evaluating:
+                        evs.append((bi, t))
         if len(evs) != 2:
             ck.bad("R13.7", "R13.7@eval#%s-operands" % op, "expected the two operand evaluations in the %s arm (found %d)" % (op, len(evs)), fn.loc)
             continue
@@ -974,24 +987,40 @@ def in_disjunction_rule(ck, facts):
         if n2 != "In":
             others |= fn.reachable(tb)
     region = fn.reachable(arm["In"]) - others
-    bad = None
-    for bi, t in fn.calls():
-        if bi not in region or not call_name_matches(t, r"iter::Iterator::(find|find_map|position|try_fold|try_for_each|skip_while|take_while)$"):
-            continue
-        if len(t["args"]) < 2:
-            continue
-        o = fn.origin(t["args"][-1])
-        cf = facts.fns.get(o[1]["def"]) if o[0] == "agg" and o[1].get("k") == "closure" else None
-        if cf is None or not any(b["t"]["t"] == "switch" for b in cf.blocks if not b.get("cleanup")):
-            bad = t
-    if bad:
-        ck.bad("R13.22", "R13.22@eval#In:first-error-ends-disjunction", "the In arm hands the per-element comparisons to %s with a predicate that "
-               "makes no decision of its own: the first element whose comparison is not false ends the search, so an error met before "
-               "the matching element makes the whole IN an error: `2 IN (1/0, 2)` and `2 IN (<iri>, \"str\", 2.0)` (both true in SPARQL 1.1 "
-               "17.4.1.9) are errors, FILTER(?o IN (1, \"str\")) keeps only the rows equal to the first element that is comparable"
-               % bad["f"]["name"].split("::")[-1], "%s:%s" % (bad["file"], bad["line"]))
+    # the per-element comparison yields Option<bool> (true / false / error).  A disjunction with SPARQL's error semantics has to tell an
+    # error from a `true` somewhere: a `match` / `if let` on that Option (a switch on its discriminant).  An (in)equality with a constant
+    # (`res != Some(false)`) lumps the two together, whatever the iteration looks like (`find`, or a loop with `break`).
+    units = [fn]
+    for b_i in region:
+        for st in fn.blocks[b_i]["s"]:
+            if st[0] == "=" and st[2][0] == "agg" and st[2][1].get("k") == "closure" and st[2][1].get("def") in facts.fns:
+                units += facts.with_closures(facts.fns[st[2][1]["def"]])
+
+    def separates(u, blocks):
+        for b_i in blocks:
+            t = u.blocks[b_i]["t"]
+            if t["t"] != "switch" or (t.get("variants") or {}).get("enum") != "core::option::Option":
+                continue
+            o = u.origin(t["on"])
+            if o[0] == "rvalue" and o[1][0] == "discr" and o[1][1]:
+                ty = u.locals[o[1][1][0]]["ty"]
+                if re.search(r"Option<bool>$", ty.replace("std::option::", "").replace("core::option::", "")):
+                    return True
+        return False
+    ok = separates(fn, region) or any(separates(u, range(len(u.blocks))) for u in units[1:])
+    eqs = [t for b_i, t in fn.calls() if b_i in region and call_name_matches(t, r"cmp::PartialEq(<.*>)?>?::(ne|eq)$")]
+    for u in units[1:]:
+        eqs += [t for _, t in u.calls() if call_name_matches(t, r"cmp::PartialEq(<.*>)?>?::(ne|eq)$")]
+    if not ok:
+        at = eqs[0] if eqs else None
+        ck.bad("R13.22", "R13.22@eval#In:first-error-ends-disjunction", "the In arm never tells an error from a `true` among the per-element comparisons "
+               "(no match on the Option<bool> they return; the only test is an (in)equality with a constant): the first element whose "
+               "comparison is not false ends the search, so an error met before the matching element makes the whole IN an error: "
+               "`2 IN (1/0, 2)` and `2 IN (<iri>, \"str\", 2.0)` (both true in SPARQL 1.1 17.4.1.9) are errors, FILTER(?o IN (1, \"str\")) keeps "
+               "only the rows equal to the first element that is comparable",
+               ("%s:%s" % (at["file"], at["line"])) if at else fn.loc)
     else:
-        ck.ok("R13.22", "In: no short-circuiting search over the per-element results with an undiscriminating predicate")
+        ck.ok("R13.22", "In: the per-element results are matched on (an error is told from a true)")
 
 
 def triple_function_rule(ck, facts):
@@ -1012,13 +1041,21 @@ def triple_function_rule(ck, facts):
             continue
         t = bs[0][1]
         m = re.search(r"Term::(is_iri|is_blank_node|is_triple|is_literal|is_variable)$", t["f"].get("name") or "")
-        if not m or not t["args"]:
+        if not t["args"]:
             continue
         who = [x for x in leaf_calls_params(fn, t["args"][0])]
         if "param:1" not in who:
             continue
         reach = fn.reachable(bs[1], avoid=nones)
-        accepted[m.group(1)] = bool(reach & somes)
+        if m:
+            accepted[m.group(1)] = accepted.get(m.group(1), False) or bool(reach & somes)
+            continue
+        # the kind test may live in a private helper (`fn can_be_subject(t) -> bool { t.is_iri() || .. }`): decide the helper for
+        # each of the five kinds (termimpls.kind_predicate) and read its true edge
+        helper = facts.fns.get(t["f"].get("res") or t["f"].get("def") or "")
+        if helper is not None and helper.crate == "sophia_sparql":
+            for nm_ in helper_true_predicates(helper):
+                accepted[nm_] = accepted.get(nm_, False) or bool(reach & somes)
     want = {"is_iri", "is_blank_node", "is_triple"}
     if not somes or not nones:
         ck.bad("R13.23", "R13.23@function::triple#shape", "function::triple has no Some / None construction to decide", fn.loc)
@@ -1028,6 +1065,35 @@ def triple_function_rule(ck, facts):
         ck.bad("R13.23", "R13.23@function::triple#subject-kinds", "TRIPLE() accepts only %s as its subject (missing: %s): `<< << :a :b :c >> :p :o >>` "
                "in an expression is an error although the same triple pattern matches, TRIPLE(?s, :p, ?o) with ?s bound to a quoted "
                "triple yields no row" % (sorted(k for k, v in accepted.items() if v), sorted(want - {k for k, v in accepted.items() if v})), fn.loc)
+
+
+def helper_true_predicates(h):
+    """the kind predicates `is_*` of its first parameter whose truth makes the bool helper `h` return true
+    (`t.is_iri() || t.is_blank_node() || t.is_triple()`): the call's result is the return value, or its true edge reaches an
+    assignment of `true` to the return place without passing one of `false`"""
+    from mirutil import bool_switch
+    def consts(v):
+        out = set()
+        for bi, b in enumerate(h.blocks):
+            for st in b["s"]:
+                if st[0] == "=" and st[1] == [0] and st[2][0] == "use" and st[2][1][0] == "k" and st[2][1][1].get("ty") == "bool" \
+                        and st[2][1][1].get("v") == v:
+                    out.add(bi)
+        return out
+    trues, falses = consts("1"), consts("0")
+    acc = set()
+    for bi, t in h.calls():
+        m = re.search(r"Term::(is_iri|is_blank_node|is_triple|is_literal|is_variable)$", t["f"].get("name") or "")
+        if not m or not t["args"] or "param:1" not in leaf_calls_params(h, t["args"][0]):
+            continue
+        if t["dest"] == [0]:
+            acc.add(m.group(1))
+            continue
+        for cand in range(len(h.blocks)):
+            bs = bool_switch(h, cand)
+            if bs and bs[0][0] == "call" and bs[0][1] is t and (h.reachable(bs[1], avoid=falses) & trues):
+                acc.add(m.group(1))
+    return acc
 
 
 def leaf_calls_params(fn, operand):
